@@ -109,6 +109,11 @@ def check(rep, tier, seed):
             elif r < 0.25:
                 data += rnd.choice(ARG_VI if vi else ARG_EMACS)
                 modelled_script = False
+            elif vi and r < 0.45:
+                # an operator and its motion: the operator-pending local keymap hands the motion key back to the main one,
+                # with the rest of the read already waiting behind it
+                data += list(rnd.choice([b"dw", b"de", b"yw", b"db", b"d$", b"dd", b"dh", b"yl", b"yb"]))
+                modelled_script = False
             else:
                 k = rnd.choice(pool)[0]
                 if vi and k[0] == 27 and len(k) > 1:
